@@ -465,8 +465,37 @@ const c12Mutators = "{% for i in lst sorted %}{{ i }}{% endfor %}{% for i in lst
 	"{% for i in holder.List reversed sorted %}{{ i }}{% endfor %}{% for i in ph.List sorted %}{{ i }}{% endfor %}{{ ph.List|slice:\":2\"|length }}{% for i in nested.l reversed %}{{ i|length }}{% endfor %}{% for i in gl sorted %}{{ i }}{% endfor %}" +
 	"{% set lst = 1 %}{% set mp = 2 %}{% with items=\"shadow\" %}{{ items }}{% endwith %}{{ items|join:\"\"|upper }}"
 
+// c12ReentrantLoop: the names a loop binds (its variable, forloop and its fields) belong to ONE run of the loop: when the
+// same for tag is entered again while a run is in progress (a recursive macro walking a tree), the inner run's bindings
+// are gone when it returns and the outer run's are what they were.
+func c12ReentrantLoop(c *C) {
+	cnt := 0
+	root := c09GenTree(c.R, 1+c.R.Intn(4), &cnt)
+	var sb strings.Builder
+	cyc := 0
+	c09Walk(root, &cyc, &sb)
+	want := sb.String()
+	set, _ := newSet(emptySetFiles)
+	tpl, err := set.FromString(c09WalkSrc)
+	if err != nil {
+		c.Fail("scope-mismatch", D{"source": q(c09WalkSrc), "compile_err": err.Error()})
+		return
+	}
+	out, xerr := execSpread(tpl, pongo2.Context{"root": root}, uint64(c.Idx))
+	c.Eval(1)
+	if xerr != nil || out != want {
+		c.Fail("scope-mismatch", D{"source": q(c09WalkSrc), "tree_nodes": cnt, "output": q(out), "expected": q(want), "error": errStr(xerr), "why": "forloop and the loop variable of the outer run after a recursive call ran the same loop again"})
+		return
+	}
+	c.Cover("reentrant_loop_bindings")
+}
+
 func c12Run(c *C) {
 	r := c.R
+	if c.Idx%200 == 19 {
+		c12ReentrantLoop(c)
+		return
+	}
 	if c.Idx%8 == 7 {
 		c12KeyValidation(c)
 		return
